@@ -27,12 +27,12 @@ func structField(t types.Type, name string) int {
 
 func init() {
 	stubs["net/url.Parse"] = func(e *Exec, fn *ssa.Function, args []value) value {
+		pt := fn.Signature.Results().At(0).Type().(*types.Pointer)
 		s, ok := concStr(args[0])
 		if !ok {
-			panic(inconclusive{"url.Parse of a symbolic string"})
+			return e.urlParseSym(strBytes(args[0]), pt)
 		}
 		u, err := url.Parse(s)
-		pt := fn.Signature.Results().At(0).Type().(*types.Pointer)
 		if err != nil {
 			return tuple{(*value)(nil), e.newError(err.Error(), nil)}
 		}
@@ -52,8 +52,26 @@ func init() {
 	stubs["(*net/url.URL).String"] = func(e *Exec, fn *ssa.Function, args []value) value { return "<url>" }
 	stubs["path/filepath.Abs"] = func(e *Exec, fn *ssa.Function, args []value) value {
 		s, ok := concStr(args[0])
-		if !ok || !strings.HasPrefix(s, "/") {
-			panic(inconclusive{"filepath.Abs of a symbolic or relative path"})
+		if !ok {
+			// <model directory>/<name>: already absolute and clean when the
+			// name holds no '/' and is neither "." nor ".."
+			name, under := e.fsSplit(args[0])
+			if !under {
+				panic(inconclusive{"filepath.Abs of a symbolic path outside the model directory"})
+			}
+			bs := strBytes(name)
+			for _, b := range bs {
+				if e.cmpByte(b, mkByte('/')) {
+					panic(inconclusive{"filepath.Abs of a symbolic path with a nested component"})
+				}
+			}
+			if len(bs) == 0 || e.decide(bytesEq(bs, strBytes("."))) || e.decide(bytesEq(bs, strBytes(".."))) {
+				panic(inconclusive{"filepath.Abs of a symbolic path naming . or .."})
+			}
+			return tuple{args[0], iface{}}
+		}
+		if !strings.HasPrefix(s, "/") {
+			panic(inconclusive{"filepath.Abs of a relative path"})
 		}
 		return tuple{filepath.Clean(s), iface{}}
 	}
@@ -69,20 +87,20 @@ func init() {
 		if _, err := filepath.Match(file, ""); err != nil {
 			return tuple{[]value(nil), e.newError(err.Error(), nil)}
 		}
-		var names []string
+		// the real filepath.Match (interpreted from its source) decides for
+		// every entry; results in name order, as Glob sorts them
+		matchFn := e.prog.ImportedPackage("path/filepath").Func("Match")
+		var hits []*fsNode
 		for _, n := range e.fs.nodes {
-			nm, ok := concStr(n.name)
-			if !ok {
-				panic(inconclusive{"filepath.Glob over symbolic file names"})
-			}
-			if m, _ := filepath.Match(file, nm); m {
-				names = append(names, nm)
+			r := e.call(matchFn, []value{file, n.name}).(tuple)
+			if b := r[0].(Bool); (b.T == nil && b.C) || (b.T != nil && e.decide(b)) {
+				hits = append(hits, n)
 			}
 		}
-		sort.Strings(names)
+		sort.SliceStable(hits, func(i, j int) bool { return e.strLess(strBytes(hits[i].name), strBytes(hits[j].name)) })
 		var out []value
-		for _, nm := range names {
-			out = append(out, filepath.Join(filepath.Clean(dir), nm))
+		for _, n := range hits {
+			out = append(out, mkStr(append(strBytes(filepath.Clean(dir)+"/"), strBytes(n.name)...)))
 		}
 		return tuple{out, iface{}}
 	}
@@ -110,6 +128,91 @@ func init() {
 				}
 			}
 		}
+		if pat, ok := (*re).(string); ok {
+			if r, ok := e.anchoredLiteralMatch(strings.TrimPrefix(pat, "regexp:"), strBytes(args[1])); ok {
+				return r
+			}
+		}
 		panic(inconclusive{"regexp MatchString on a symbolic subject"})
 	}
+}
+
+// urlParseSym is url.Parse for a path that starts with a concrete '/' and
+// holds symbolic bytes: no scheme; a control character is an error; the path
+// ends at the first '?' or '#'.  Escapes ('%') are not modelled.
+func (e *Exec) urlParseSym(bs []Int, pt *types.Pointer) value {
+	if len(bs) == 0 || !bs[0].isConc() || byte(bs[0].C) != '/' {
+		panic(inconclusive{"url.Parse of a symbolic string that does not start with /"})
+	}
+	end := len(bs)
+	for i, b := range bs {
+		if b.X != nil {
+			panic(inconclusive{"url.Parse of formatted text"})
+		}
+		if b.isConc() {
+			c := byte(b.C)
+			if c < 0x20 || c == 0x7f {
+				return tuple{(*value)(nil), e.newError("net/url: invalid control character in URL", nil)}
+			}
+			if c == '%' {
+				panic(inconclusive{"url.Parse of a symbolic string with an escape"})
+			}
+			if (c == '?' || c == '#') && end == len(bs) {
+				end = i
+			}
+			continue
+		}
+		if e.decide(bor(byteIn(b, 0x00, 0x1f), byteIn(b, 0x7f, 0x7f))) {
+			return tuple{(*value)(nil), e.newError("net/url: invalid control character in URL", nil)}
+		}
+		if e.cmpByte(b, mkByte('%')) {
+			panic(inconclusive{"url.Parse of a symbolic string with an escape"})
+		}
+		if end == len(bs) && (e.cmpByte(b, mkByte('?')) || e.cmpByte(b, mkByte('#'))) {
+			end = i
+		}
+	}
+	st := zero(pt.Elem()).(structure)
+	st[structField(pt.Elem(), "Path")] = mkStr(append([]Int{}, bs[:end]...))
+	p := new(value)
+	*p = st
+	return tuple{p, iface{}}
+}
+
+// anchoredLiteralMatch decides regular expressions of the form ^lit, lit$,
+// ^lit$ (lit: plain characters and escaped punctuation) on symbolic bytes.
+func (e *Exec) anchoredLiteralMatch(pat string, subj []Int) (value, bool) {
+	pre := strings.HasPrefix(pat, "^")
+	suf := strings.HasSuffix(pat, "$") && !strings.HasSuffix(pat, "\\$")
+	body := pat
+	if pre {
+		body = body[1:]
+	}
+	if suf {
+		body = body[:len(body)-1]
+	}
+	var lit []byte
+	for i := 0; i < len(body); i++ {
+		c := body[i]
+		if c == '\\' && i+1 < len(body) && strings.IndexByte(".$^*+?()[]{}|\\/-", body[i+1]) >= 0 {
+			i++
+			lit = append(lit, body[i])
+			continue
+		}
+		if strings.IndexByte(".$^*+?()[]{}|\\", c) >= 0 {
+			return nil, false
+		}
+		lit = append(lit, c)
+	}
+	if !pre && !suf {
+		return nil, false
+	}
+	n := len(lit)
+	if len(subj) < n || (pre && suf && len(subj) != n) {
+		return Bool{C: false}, true
+	}
+	if pre {
+		return Bool{C: e.decide(bytesEq(subj[:n], strBytes(string(lit))))}, true
+	}
+	return Bool{C: e.decide(bytesEq(subj[len(subj)-n:], strBytes(string(lit))))}, true
 }
